@@ -554,3 +554,43 @@ def build_data(case: dict) -> dict:
         vals = 1.0 + rng.standard_normal((len(m), len(g)))
         out[dl] = xr.DataArray(vals, coords=[(md, np.asarray(m)), (gd, np.asarray(g))]).to_dataset(name="data")
     return out
+
+
+# ------------------------------------------------------------------------------------------
+# histories: one model object + one Parameters object, edited in place and validated again and again
+#
+# A step is JSON ``{"op": str, "i": int, "variant": int, "probes": [str, ...]}``.  ``i`` selects (modulo the
+# number of candidates the interpreter finds in the *current* state) what the operation acts on, so a
+# step list is meaningful for every model and a recorded case replays without Hypothesis.  An operation
+# without candidate degrades to ``noop`` (validating twice without an edit in between is part of the space).
+
+HISTORY_OPS = [
+    "rename", "rename", "rename",  # misspell one reference position in place (variant: fresh / defined elsewhere / near miss)
+    "repair", "repair", "repair",  # give one misspelled position its original label back
+    "del_def",  # delete the definition of a model item from its section of the live model
+    "restore_def",  # put a deleted definition (the same object) back
+    "del_param",  # remove a parameter from the live Parameters object
+    "restore_param",  # put it back
+    "dup_unique",  # list a unique megacomplex of a dataset a second time
+    "undup",  # take the duplicate out again
+    "noop",
+]
+# 0-suffix: called without parameters
+HISTORY_PROBES = ["validate", "validate0", "valid", "valid0", "issues", "issues0", "scheme_validate", "scheme_valid"]
+
+
+@st.composite
+def histories(draw, max_steps: int = 12):
+    case = draw(models())
+    n = 2 + draw(st.integers(0, max_steps - 2))
+    steps = []
+    for _ in range(n):
+        steps.append({
+            "op": draw(st.sampled_from(HISTORY_OPS)),
+            "i": draw(st.integers(0, 63)),
+            "variant": draw(st.integers(0, 2)),
+            "probes": [draw(st.sampled_from(HISTORY_PROBES)) for _ in range(1 + draw(st.integers(0, 2)))],
+        })
+    case["first_probes"] = [draw(st.sampled_from(HISTORY_PROBES)) for _ in range(1 + draw(st.integers(0, 1)))]
+    case["steps"] = steps
+    return case
